@@ -422,7 +422,10 @@ func genQueryDoc(g *Gen, r *rand.Rand) *Node {
 	for i, n := 0, r.Intn(3); i < n; i++ {
 		nm := g.newName()
 		shared = append(shared, nm)
-		p := g.simpleParam([]string{"limit", "offset", "X-Trace", "id"}[r.Intn(4)])
+		p := g.simpleParam([]string{"limit", "offset", "X-Trace", "id", "UserId", "Url"}[r.Intn(6)])
+		if r.Intn(2) == 0 {
+			p.At["x-shared-note"] = "s" // an extension of its own: its map is shared by every copy of the parameter
+		}
 		ps.Ch[nm] = p
 	}
 	if len(ps.Ch) > 0 {
@@ -437,7 +440,11 @@ func genQueryDoc(g *Gen, r *rand.Rand) *Node {
 	param := func(j int) *Node {
 		switch k := r.Intn(8); {
 		case k == 0 && len(shared) > 0:
-			return refNode("root", "parameters", shared[r.Intn(len(shared))])
+			rn := refNode("root", "parameters", shared[r.Intn(len(shared))])
+			if r.Intn(2) == 0 {
+				rn.At["x-ref-note"] = "r" // an extension written beside the $ref
+			}
+			return rn
 		case k == 1:
 			return refNode("root", "parameters", "doesNotExist")
 		case k == 2:
@@ -447,7 +454,8 @@ func genQueryDoc(g *Gen, r *rand.Rand) *Node {
 			}
 			return refNode("root", "definitions", "N_50") // resolves, but not to a parameter
 		}
-		p := g.simpleParam([]string{"limit", "offset", "X-Trace", "id", "filter"}[r.Intn(5)])
+		// (names that differ by letter case only, or whose Go spelling folds an initialism: userId / UserId -> UserID, url / Url -> URL)
+		p := g.simpleParam([]string{"limit", "offset", "X-Trace", "id", "filter", "userId", "UserId", "url", "Url"}[r.Intn(9)])
 		serial++
 		p.At["description"] = fmt.Sprintf("d%d", serial) // every inline parameter is distinguishable from its namesakes
 		if r.Intn(6) == 0 {
